@@ -334,6 +334,111 @@ fn scenario(c: &Config, values: &[i64]) -> (u64, u64, Option<(String, String)>, 
 }
 
 
+/// Lexicase on *ragged* populations: every individual has its own number of results (0..=3), so a
+/// missing case may strike at the first candidate, at a later candidate that is still in the running,
+/// or not at all, depending on the case order.  Oracle: a member, or `MissingTestCase` -- admissible
+/// only when the configured case count exceeds the result count of some individual -- never a panic.
+fn ragged_rows(max_len: usize) -> Vec<Vec<i64>> {
+    let mut rows: Vec<Vec<i64>> = vec![];
+    for len in 0..=max_len {
+        rows.extend(all_value_vectors(len, &[1, 2]));
+    }
+    rows
+}
+fn ragged_scenario(rows: &[Vec<i64>], c: usize, erased_form: bool) -> (u64, u64, Option<(String, String)>, usize) {
+    let pop = mk_pop_matrix(rows);
+    let n = rows.len();
+    let min_len = rows.iter().map(|r| r.len()).min().unwrap_or(0);
+    let alpha = Alphabet::Rep { r: 479_001_600, k: 24 };
+    let mut outcomes: BTreeSet<SelObs> = BTreeSet::new();
+    let mut bad: Option<(String, String)> = None;
+    let lex = Lexicase::new(c);
+    let boxed: Box<dyn DynSelector<Pop> + Send + Sync> = Box::new(Lexicase::new(c));
+    let st = explore(
+        |env| {
+            env.horizon = 8;
+            if erased_form {
+                observe_select(&boxed, &pop, &pop, env, alpha)
+            } else {
+                observe_select(&lex, &pop, &pop, env, alpha)
+            }
+        },
+        |_, _, o| {
+            let ok = match &o {
+                SelObs::Idx(_) => n > 0,
+                SelObs::Err(ErrKind::Empty) => n == 0,
+                SelObs::Err(ErrKind::MissingCase) => c > min_len,
+                _ => false,
+            };
+            if !ok && bad.is_none() {
+                let kind = match &o {
+                    SelObs::Idx(_) => "member-where-error-is-due",
+                    SelObs::Err(_) => "undocumented-error",
+                    SelObs::NotMember => "not-a-member",
+                    SelObs::Panic(_) => "panic",
+                };
+                bad = Some((
+                    format!("select/{kind}/ragged-Lex"),
+                    format!("{}Lexicase({c}) on individuals with results {rows:?}: result {o:?}; admissible: a member{}", if erased_form { "dyn:" } else { "" }, if c > min_len { " or MissingTestCase" } else { "" }),
+                ));
+            }
+            outcomes.insert(o);
+        },
+        3_000_000,
+    );
+    (st.leaves, st.choice_points, bad, outcomes.len())
+}
+pub fn ragged_lexicase(run: &mut Run) {
+    let quick = run.quick();
+    let rows = ragged_rows(3);
+    let max_n = if quick { 3 } else { 4 };
+    let mut pops: Vec<Vec<Vec<i64>>> = vec![];
+    for n in 1..=max_n {
+        // all ordered n-tuples of rows (n = 4: only result lengths <= 2 to keep it bounded)
+        let pool: Vec<&Vec<i64>> = if n == 4 { rows.iter().filter(|r| r.len() <= 2).collect() } else { rows.iter().collect() };
+        let mut idx = vec![0usize; n];
+        loop {
+            pops.push(idx.iter().map(|i| pool[*i].clone()).collect());
+            let mut k = 0;
+            while k < n {
+                idx[k] += 1;
+                if idx[k] < pool.len() {
+                    break;
+                }
+                idx[k] = 0;
+                k += 1;
+            }
+            if k == n {
+                break;
+            }
+        }
+    }
+    let jobs: Vec<(usize, usize, bool)> = (0..pops.len()).flat_map(|p| (0..=3usize).flat_map(move |c| [(p, c, false), (p, c, true)])).collect();
+    let results = mcx::par_map(jobs.len(), |j| ragged_scenario(&pops[jobs[j].0], jobs[j].1, jobs[j].2));
+    let mut nontrivial = 0u64;
+    let mut with_error = 0u64;
+    for (j, (leaves, cps, v, outcomes)) in results.into_iter().enumerate() {
+        run.evaluations += leaves;
+        run.transitions += cps;
+        if outcomes > 1 {
+            nontrivial += 1;
+        }
+        let (p, c, _) = jobs[j];
+        if pops[p].iter().any(|r| r.len() < c) {
+            with_error += 1;
+        }
+        if let Some((k, w)) = v {
+            run.violation(k, w, json!({"check":"C06","ragged":pops[p],"cases":c,"erased":jobs[j].2}));
+        }
+    }
+    run.states += jobs.len() as u64;
+    run.distinct_nontrivial += nontrivial;
+    run.note("ragged.scenarios", json!(jobs.len()));
+    run.note("ragged.scenarios_with_a_short_individual", json!(with_error));
+    run.bound("ragged.max_population", json!(max_n));
+    run.bound("ragged.results_per_individual", json!("0..=3 over values {1,2}, chosen per individual"));
+}
+
 pub fn run(run: &mut Run) {
     let quick = run.quick();
     let max_n = if quick { 3 } else { 4 };
@@ -368,9 +473,10 @@ pub fn run(run: &mut Run) {
         run.cap_hit(format!("{capped} scenarios stopped at 3,000,000 executions"));
     }
     run.states = jobs.len() as u64;
-    run.traces_validated = run.evaluations;
     run.distinct_nontrivial = nontrivial;
-    run.rule = "every selector configuration (Best, Worst, Random, Tournament(1..n+1), Lexicase(0..3 cases, 2 results available), lone Weighted, WeightedPair nestings of 2..4 real selectors, DynWeighted lists of 1..3; direct, behind &, through Select, and type-erased) x every population of size 0..n over 3 values x every word sequence of the mixed Grid(12)+Rep(12!,24) alphabet; non-trivial = scenarios with more than one distinct outcome".into();
+    ragged_lexicase(run);
+    run.traces_validated = run.evaluations;
+    run.rule = "every selector configuration (Best, Worst, Random, Tournament(1..n+1), Lexicase(0..3 cases, 2 results available), lone Weighted, WeightedPair nestings of 2..4 real selectors, DynWeighted lists of 1..3; direct, behind &, through Select, and type-erased) x every population of size 0..n over 3 values x every word sequence of the mixed Grid(12)+Rep(12!,24) alphabet; plus Lexicase(0..3), direct and erased, on every ragged population (each individual with its own 0..3 results); non-trivial = scenarios with more than one distinct outcome".into();
     run.bound("max_population", json!(max_n));
     run.bound("configurations", json!(configs.len()));
     run.bound("populations", json!(pops.len()));
@@ -380,6 +486,22 @@ pub fn run(run: &mut Run) {
 }
 
 pub fn replay(v: &Value) -> bool {
+    if let Some(rows) = v["ragged"].as_array() {
+        let rows: Vec<Vec<i64>> = rows.iter().map(|r| r.as_array().map(|a| a.iter().filter_map(|x| x.as_i64()).collect()).unwrap_or_default()).collect();
+        let c = v["cases"].as_u64().unwrap_or(0) as usize;
+        let (leaves, _, viol, outcomes) = ragged_scenario(&rows, c, v["erased"].as_bool().unwrap_or(false));
+        println!("Lexicase({c}) on results {rows:?}: {leaves} executions, {outcomes} distinct outcomes");
+        return match viol {
+            Some((k, w)) => {
+                println!("MISMATCH [{k}]: {w}");
+                false
+            }
+            None => {
+                println!("replay: property held");
+                true
+            }
+        };
+    }
     let name = v["config"].as_str().unwrap_or("");
     let values: Vec<i64> = v["values"].as_array().map(|a| a.iter().filter_map(|x| x.as_i64()).collect()).unwrap_or_default();
     let mut configs = leaf_configs(4);
